@@ -36,8 +36,8 @@ from specs.valence import check_valence
 from props import C01 as base
 
 ID = 'C11'
-LEVEL = 'exploration'
-P_TARGETS = []
+LEVEL = 'other'
+P_TARGETS = ['cgsmiles.resolve:MoleculeResolver.edges_from_bonding_descrpt', 'cgsmiles.graph_utils:merge_graphs']
 BUDGET = {'quick': 33.0, 'thorough': 400.0}
 CHUNK = 50
 BOUNDS = {
